@@ -10,6 +10,10 @@ or none.  Request kinds: plain GET, POST whose streaming handler answers before 
 (``early``), and a malformed request that ends the connection with 400 (``bad``).  The handler echoes
 ``request.remote_ip`` / ``request.protocol`` as JSON; responses are read with the strict reference reader.
 
+The server API is a generated dimension: ``HTTPServer(Application)``, ``HTTPServer(<bare HTTPServerConnectionDelegate>)``
+and ``HTTPServer(<plain callable>)`` (wrapped by ``_CallableAdapter``; the callable answers via ``request.connection``),
+each with ``xheaders`` on (4/5) or off (1/5; then the proxy headers must be ignored entirely).
+
 Oracle, per request and **from that request's own headers only** (so any carry-over from an earlier
 request is a mismatch):
   * candidate = X-Real-Ip if present, else the rightmost X-Forwarded-For entry not in T;
@@ -41,6 +45,11 @@ Sensitivity (quick tier, seed 1, one mutant at a time on a scratch copy of torna
   M6 first instead of last item of the proto list          -> caught (C32.protocol_selection: "http,https")
   M7 _unapply_xheaders restores remote_ip but not protocol -> caught (C32.leak_protocol)
   M9 _ProxyAdapter.finish does not call _cleanup           -> caught (C32.leak_*)
+  M10 HTTPServer.start_request wraps the delegate in _ProxyAdapter only for HTTPServerConnectionDelegate callbacks
+      (plain-callable servers silently ignore the proxy headers)
+       -> caught at seeds 1, 2, 3 after the server API became a generated dimension (Application / bare delegate /
+          plain callable, xheaders on/off): C32.proxy_ip_ignored / C32.protocol_selection on api=callable; MISSED before,
+          when only HTTPServer(Application) was driven.  replays/C32/callable-api-xheaders.json pins it.
   M8 _ProxyAdapter.on_connection_close does not call _cleanup (DESIGN's first mutant) -> NOT caught, and not
      catchable through the statement: the context belongs to one connection and on_connection_close means that
      connection is gone, so no later request can observe the stale values (equivalent mutant for this property).
@@ -51,6 +60,7 @@ import socket
 
 from hypothesis import strategies as st
 
+from tornado import httputil
 from tornado.web import Application, RequestHandler, stream_request_body
 
 from vlib import vtime
@@ -119,6 +129,9 @@ def request_s(draw):
 
 
 case_s = st.fixed_dictionaries({
+    # which of the equivalent server APIs receives the requests, and whether xheaders is on at all
+    "api": st.sampled_from(["app", "app", "delegate", "callable", "callable"]),
+    "xheaders": st.sampled_from([True, True, True, True, False]),
     "sock": st.sampled_from(SOCKETS),
     "trusted": st.lists(st.sampled_from(TRUST_POOL), max_size=3, unique=True),
     "conn_proto": st.sampled_from([None, None, "https"]),
@@ -252,6 +265,51 @@ class Early(RequestHandler):
 APP = Application([(r"/e", Echo), (r"/early", Early)])
 
 
+def _echo_response(conn, request):
+    body = json.dumps({"ip": request.remote_ip, "proto": request.protocol}).encode()
+    conn.write_headers(httputil.ResponseStartLine("HTTP/1.1", 200, "OK"),
+                       httputil.HTTPHeaders({"Content-Length": str(len(body)), "Content-Type": "application/json"}), body)
+    conn.finish()
+
+
+def plain_callable(request):
+    """Old-style request_callback: HTTPServer wraps it in _CallableAdapter; it answers by itself."""
+    _echo_response(request.connection, request)
+
+
+class _EchoMessage(httputil.HTTPMessageDelegate):
+    def __init__(self, conn):
+        self.conn = conn
+        self.request = None
+        self.answered = False
+
+    def headers_received(self, start_line, headers):
+        self.request = httputil.HTTPServerRequest(connection=self.conn, start_line=start_line, headers=headers)
+        if self.request.path == "/early":  # answer before the body has arrived
+            self.answered = True
+            _echo_response(self.conn, self.request)
+
+    def data_received(self, chunk):
+        pass
+
+    def finish(self):
+        if not self.answered:
+            _echo_response(self.conn, self.request)
+
+    def on_connection_close(self):
+        pass
+
+
+class EchoDelegate(httputil.HTTPServerConnectionDelegate):
+    """A bare HTTPServerConnectionDelegate (neither Application nor Router)."""
+
+    def start_request(self, server_conn, request_conn):
+        return _EchoMessage(request_conn)
+
+
+SERVERS = {"app": lambda: APP, "delegate": EchoDelegate, "callable": lambda: plain_callable}
+
+
 def build_request(kind, hdrs, i):
     lines = []
     for k, v in hdrs:
@@ -272,13 +330,13 @@ def run_history(case):
         family, address = socket.AF_INET6, (ip, 54321, 0, 0)
     else:
         family, address = socket.AF_UNIX, ""
-    kw = dict(xheaders=True, trusted_downstream=list(case["trusted"]))
+    kw = dict(xheaders=case.get("xheaders", True), trusted_downstream=list(case["trusted"]))
     if case["conn_proto"]:
         kw["protocol"] = case["conn_proto"]
     methods = []
 
     async def scenario():
-        s = ServerSession(APP, address=address, family=family, **kw)
+        s = ServerSession(SERVERS[case.get("api", "app")](), address=address, family=family, **kw)
         for i, (kind, hdrs) in enumerate(case["requests"]):
             if s.closed:
                 break
@@ -305,7 +363,8 @@ def run_case(ctx, case):
     sock_ip = ip if fam in ("v4", "v6") else "0.0.0.0"
     conn_proto = case["conn_proto"] or "http"
     trusted = set(case["trusted"])
-    labels = {"sock_" + fam}
+    api, xh = case.get("api", "app"), case.get("xheaders", True)
+    labels = {"sock_" + fam, "api_" + api, "xheaders_on" if xh else "xheaders_off"}
     nontrivial = False
     wire, closed, logs, methods = run_history(case)
     detail0 = {"sock": case["sock"], "trusted": sorted(trusted), "conn_proto": conn_proto}
@@ -334,6 +393,9 @@ def run_case(ctx, case):
             ended = True
             continue
         ips, protos, labs = reference(hdrs, trusted, sock_ip, conn_proto)
+        if not xh:
+            # xheaders disabled: the proxy headers are ordinary headers and must be ignored
+            ips, protos = {sock_ip}, {conn_proto}
         labels |= labs
         has_ip = any(k in ("X-Real-Ip", "X-Forwarded-For") for k, _ in hdrs)
         has_proto = any(k in ("X-Scheme", "X-Forwarded-Proto") for k, _ in hdrs)
@@ -342,7 +404,7 @@ def run_case(ctx, case):
             nontrivial = True
         if "trusted_skip" in labs:
             nontrivial = True
-        detail = dict(detail0, index=i, kind=kind, headers=hdrs, history=case["requests"][:i])
+        detail = dict(detail0, index=i, kind=kind, headers=hdrs, history=case["requests"][:i], api=api, xheaders=xh)
         if r.code != 200:
             ctx.fail("C32.status", dict(detail, code=r.code, body=r.body[:120]))
             prev_had_ip, prev_had_proto = has_ip, has_proto
@@ -364,6 +426,8 @@ def run_case(ctx, case):
         elif got_ip not in ips:
             if not has_ip:
                 ctx.fail("C32.leak_remote_ip", detail)
+            elif xh and got_ip == sock_ip:
+                ctx.fail("C32.proxy_ip_ignored", detail)
             else:
                 ctx.fail("C32.remote_ip_selection", detail)
         if got_proto not in ("http", "https"):
@@ -388,7 +452,7 @@ def run_case(ctx, case):
 
 
 PARTS = {"main": run_case}
-REQUIRED = ["leak_probe", "trusted_skip", "garbage_ip", "proto_list", "ip_from_header", "proto_from_header", "kind_early",
+REQUIRED = ["api_app", "api_delegate", "api_callable", "xheaders_off", "leak_probe", "trusted_skip", "garbage_ip", "proto_list", "ip_from_header", "proto_from_header", "kind_early",
             "kind_bad", "sock_unix", "sock_v6", "all_trusted_either"]
 
 
